@@ -654,8 +654,12 @@ func (r *Run) Finish() int {
 		fmt.Println("evidence marshal error:", err)
 		return Inconclusive
 	}
-	os.MkdirAll(filepath.Join(r.Dir, "evidence"), 0o755)
-	os.WriteFile(filepath.Join(r.Dir, "evidence", r.Prop+".json"), b, 0o644)
+	evdir := os.Getenv("VERIF_EVIDENCE_DIR") // set only by self-validation runs against a scratch copy
+	if evdir == "" {
+		evdir = filepath.Join(r.Dir, "evidence")
+	}
+	os.MkdirAll(evdir, 0o755)
+	os.WriteFile(filepath.Join(evdir, r.Prop+".json"), b, 0o644)
 
 	for _, s := range r.incon {
 		fmt.Printf("INCONCLUSIVE property=%s %s\n", r.Prop, s)
